@@ -28,6 +28,9 @@ pub struct Case {
     /// additionally a chain of this many nested directories (0 = none) with a file every 100 levels
     #[serde(default)]
     pub depth: u16,
+    /// options that must not change the descriptor bound: bit0 --fsync, 1 --no-perms, 2 --no-timestamps, 3 --ownership, 4 --backup=numbered
+    #[serde(default)]
+    pub extra: u8,
 }
 
 pub fn strategy(max_n: u32) -> BoxedStrategy<Case> {
@@ -40,8 +43,9 @@ pub fn strategy(max_n: u32) -> BoxedStrategy<Case> {
         any::<u64>(),
         prop::bool::weighted(0.3),
         prop_oneof![3 => Just(0u16), 1 => Just(300u16), 2 => Just(1100u16)],
+        prop_oneof![2 => Just(0u8), 2 => Just(1u8), 2 => 0u8..32],
     )
-        .prop_map(|(nfiles, ndirs, workers, parblock, sched, seed, multi_block, depth)| Case { nfiles: if depth > 0 { std::cmp::min(nfiles, 600) } else { nfiles }, ndirs, workers, parblock, sched, seed, multi_block, depth })
+        .prop_map(|(nfiles, ndirs, workers, parblock, sched, seed, multi_block, depth, extra)| Case { nfiles: if depth > 0 { std::cmp::min(nfiles, 600) } else { nfiles }, ndirs, workers, parblock, sched, seed, multi_block, depth, extra })
         .boxed()
 }
 
@@ -79,6 +83,13 @@ pub fn judge(c: &Case, rec: &mut Rec) -> Verdict {
     inv.workers = c.workers;
     inv.recursive = true;
     inv.block = if c.multi_block { Some(4096) } else { None };
+    inv.fsync = c.extra & 1 != 0;
+    inv.no_perms = c.extra & 2 != 0;
+    inv.no_timestamps = c.extra & 4 != 0;
+    inv.ownership = c.extra & 8 != 0;
+    if c.extra & 16 != 0 {
+        inv.backup = "numbered".into();
+    }
     inv.sources = vec![b"s".to_vec()];
     inv.dest = b"d".to_vec();
     let pre = match snapshot(&sb.root) {
@@ -122,6 +133,9 @@ pub fn judge(c: &Case, rec: &mut Rec) -> Verdict {
     let sched_name = format!("{:?}", kind).split('(').next().unwrap_or("").to_string();
     if c.depth > 0 {
         rec.class(format!("depth={}|{}", c.depth, driver));
+    }
+    if c.extra & 1 != 0 {
+        rec.class(format!("fsync|{}", driver));
     }
     let key = format!("{}|n={}|w{}|{}|exit={}", driver, c.nfiles, c.workers, if c.sched == 0 { "unsupervised".to_string() } else { sched_name.clone() }, if ok { "0" } else { "!0" });
     rec.class(key);
@@ -178,6 +192,6 @@ impl Check for C20 {
         }
     }
     fn required_classes(&self, _tier: Tier) -> Vec<String> {
-        ["parblock|", "parfile|", "WalkerFirst", "w64|", "n=3000", "depth=1100|parfile", "depth=1100|parblock"].iter().map(|s| s.to_string()).collect()
+        ["parblock|", "parfile|", "WalkerFirst", "w64|", "n=3000", "depth=1100|parfile", "depth=1100|parblock", "fsync|parfile", "fsync|parblock"].iter().map(|s| s.to_string()).collect()
     }
 }
